@@ -1162,9 +1162,11 @@ def sun_compact(U, rtol=1e-12, atol=1e-12):
     # complex working copy: for a real (orthogonal) input with det = -1 the power
     # ``det ** (-1 / n)`` of a negative numpy float is nan
     SU = U.astype(np.complex128)
+    # always remove the phase of the determinant: the SU(2) factors are tested for unit
+    # determinant with a fixed tolerance, independent of ``rtol`` and ``atol``
+    SU *= np.exp(-1j * np.angle(det) / n)
     if not np.isclose(det, 1, rtol=rtol, atol=atol):
         global_phase = np.angle(det)
-        SU *= np.exp(-1j * global_phase / n)
 
     # Decompose the matrix
     parameters_no_modes = _sun_parameters(SU, rtol, atol)
